@@ -46,3 +46,21 @@ Print Assumptions C08_strictly_increasing.
 
 Theorem C08_starts_at_zero : (first_month_hour 1 [2019%Q] - 1 == 0)%Q.
 Proof. vm_compute. reflexivity. Qed.
+
+(* a leap year of loads (load_years = [2020], reachable through the GHE / search / design classes): the regenerated helpers follow the
+   8784-hour calendar, every month number of a 50-year horizon *)
+Theorem C08_calendar_closed_form_leap_year : forall m : Z, (1 <= m <= 600)%Z ->
+  (last_month_hour (inject_Z m) [2020%Q] == inject_Z (closed_lmh_leap m))%Q /\
+  (first_month_hour (inject_Z m) [2020%Q] == inject_Z (closed_lmh_leap (m - 1) + 1))%Q /\
+  (monthdays (inject_Z m) 2020 * 24 == inject_Z (closed_lmh_leap m - closed_lmh_leap (m - 1)))%Q.
+Proof. exact calendar_closed_leap. Qed.
+Print Assumptions C08_calendar_closed_form_leap_year.
+
+(* observation (outside the property's quantifier: the manager passes one load year): with a LIST of load years the helpers apply the year
+   of the month asked for to all months before it; month 25 of [2019; 2019; 2020] starts 49 hours after month 24 ends *)
+Theorem C08_multi_year_calendar_refuted :
+  let ys := [2019%Q; 2019%Q; 2020%Q] in
+  (first_month_hour 25 ys == 17569)%Q /\ (last_month_hour 24 ys == 17520)%Q /\
+  ~ (first_month_hour 25 ys == last_month_hour 24 ys + 1)%Q.
+Proof. exact multi_year_calendar_breaks. Qed.
+Print Assumptions C08_multi_year_calendar_refuted.
